@@ -97,6 +97,12 @@ def same_as_whole(word: str, cuts: List[bool]) -> bool:
     pre: len(word) <= N and len(cuts) == max(0, len(word) - 1)
     post: _
     """
+    return _same_as_whole(word, cuts)
+
+
+def _same_as_whole(word, cuts):
+    # body of `same_as_whole` without a contract of its own: CrossHair assumes the contracts of CALLED functions, so a
+    # contract function that delegates to another contract function would silently drop the callee's failures
     exclude_known("same_as_whole", word=word, cuts=cuts, SPEC=SPEC)
     ps = pieces_of(word, cuts)
     whole = iter_forest(G, word)
@@ -165,7 +171,7 @@ def same_as_whole_fa(word: str, cuts: List[bool]) -> bool:
     elif FIRST:
         if len(word) == 0 or word[0] != FIRST:
             raise IgnoreAttempt("first character fixed per condition")
-    return same_as_whole(concretise(word), cuts)
+    return _same_as_whole(concretise(word), cuts)
 
 
 def reach(word: str, cuts: List[bool]) -> bool:
